@@ -1,0 +1,5 @@
+//go:build !verif
+
+package rangeplugin
+
+func verifRegister(string, *PluginState) {}
